@@ -70,6 +70,9 @@ type Sim struct {
 	MidTick []func(s *Sim)
 	// FailNext[endpoint] = number of upcoming calls of that endpoint that fail with HTTP 500
 	FailNext map[string]int
+	// Hold[endpoint]: requests to that endpoint park inside the transport until the harness releases them
+	// (a slow answer: lets another goroutine of the watcher run in the middle of a reaction)
+	Hold map[string]chan struct{}
 	// request log
 	Reqs   []string
 	nreq   uint64
@@ -78,7 +81,7 @@ type Sim struct {
 
 func NewSim(gov string) *Sim {
 	return &Sim{Gov: gov, Blocks: map[string]*Block{}, TxEvents: map[string][]Event{}, TxBlock: map[string]string{}, Tokens: map[string]TokenAnswer{},
-		PageSize: 100, Synced: true, FailNext: map[string]int{}, PerKey: map[string]int{}}
+		PageSize: 100, Synced: true, FailNext: map[string]int{}, PerKey: map[string]int{}, Hold: map[string]chan struct{}{}}
 }
 
 func (s *Sim) Activity() uint64 {
@@ -141,6 +144,14 @@ func (s *Sim) RoundTrip(req *http.Request) (*http.Response, error) {
 		return apiErr(req, 500, "verif: spin limit"), nil
 	}
 	ep := endpointOf(path)
+	if ch := s.Hold[ep]; ch != nil {
+		s.mu.Unlock()
+		select {
+		case <-ch:
+		case <-req.Context().Done():
+		}
+		s.mu.Lock()
+	}
 	if s.FailNext[ep] > 0 {
 		s.FailNext[ep]--
 		return apiErr(req, 500, "injected fault"), nil
@@ -352,6 +363,33 @@ func (s *Sim) Reinclude(tx, newHash string) {
 		}
 	}
 	s.TxEvents[tx] = moved
+}
+
+// HoldEndpoint makes answers of an endpoint wait; Release lets them through.
+func (s *Sim) HoldEndpoint(ep string) {
+	s.mu.Lock()
+	if s.Hold[ep] == nil {
+		s.Hold[ep] = make(chan struct{})
+	}
+	s.mu.Unlock()
+}
+
+func (s *Sim) Release(ep string) {
+	s.mu.Lock()
+	if ch := s.Hold[ep]; ch != nil {
+		close(ch)
+		delete(s.Hold, ep)
+	}
+	s.mu.Unlock()
+}
+
+func (s *Sim) ReleaseAll() {
+	s.mu.Lock()
+	for ep, ch := range s.Hold {
+		close(ch)
+		delete(s.Hold, ep)
+	}
+	s.mu.Unlock()
 }
 
 func (s *Sim) Fail(endpoint string, n int) {
